@@ -150,6 +150,7 @@ type c16Replica struct {
 	vs     *protocol.ViewStates
 	logger logging.Logger
 	trip   *c16Trip
+	auth   *cert.Authority
 	sender *c16Sender
 	tree   []hotstuff.ID // tree positions or nil
 }
@@ -194,11 +195,12 @@ func c16NewReplicaIDs(id hotstuff.ID, members []hotstuff.ID, seed int64, treePos
 	if err != nil {
 		panic(err)
 	}
-	vs, err := protocol.NewViewStates(bc, cert.NewAuthority(cfg, bc, base))
+	auth := cert.NewAuthority(cfg, bc, base)
+	vs, err := protocol.NewViewStates(bc, auth)
 	if err != nil {
 		panic(err)
 	}
-	return &c16Replica{id: id, n: n, seed: seed, cfg: cfg, bc: bc, vs: vs, logger: logger, sender: sender, tree: treePos, trip: trip}
+	return &c16Replica{id: id, n: n, seed: seed, cfg: cfg, bc: bc, vs: vs, logger: logger, sender: sender, tree: treePos, trip: trip, auth: auth}
 }
 
 func (r *c16Replica) rotation(name string, chainLength int) LeaderRotation {
@@ -612,6 +614,20 @@ func c16GenChain(rng *rand.Rand, n, length int, startView uint64, kind int, univ
 				b.signers = recent // only proposers of the last f blocks (f >= 1), else the own proposer
 			}
 		}
+		if kind == 3 && i == 0 {
+			// forged "genesis certificate": the first block certifies genesis with view 0; VerifyQuorumCert's
+			// genesis shortcut does not look at the signature, so it may list anybody
+			b.signers = [][]hotstuff.ID{
+				{77},
+				{0},
+				{hotstuff.ID(n + 1), hotstuff.ID(n + 2), hotstuff.ID(n + 3)},
+				{math.MaxUint32, 1 << 31},
+				{2, 2, 77},
+				{1, 77},
+				{77, 100, 2000},
+				{hotstuff.ID(n + 1)},
+			}[rng.Intn(8)]
+		}
 		if kind == 1 {
 			switch rng.Intn(8) {
 			case 6:
@@ -864,10 +880,18 @@ func c16Carousel(v *verifOut) {
 				default:
 					v.Count("carousel_fallback")
 				}
+				// a head that certifies genesis and passes the real cert.Authority.VerifyQuorumCert is a head the
+				// protocol accepts (Voter.Verify), whatever its signature lists: the full oracle applies to it
+				accepted := k == 0 && signers != nil && sc.reps[0].auth.VerifyQuorumCert(sc.head(0, k).QuorumCert()) == nil &&
+					sc.reps[1].auth.VerifyQuorumCert(sc.head(1, k).QuorumCert()) == nil && sc.reps[2].auth.VerifyQuorumCert(sc.head(2, k).QuorumCert()) == nil
+				if accepted && !wf {
+					in["head_certificate"] = "certifies genesis (view 0); accepted by cert.Authority.VerifyQuorumCert on all three replicas"
+					v.Count("carousel_accepted_forged_genesis_certificate")
+				}
 				if o[0].panicked || o[1].panicked || o[2].panicked || first.panicked {
 					// "no scheme panics": whatever certificate the committed head carries
 					v.Oracle(false, "carousel:panic", fmt.Sprintf("carousel GetLeader(%d) panicked (%s) under a committed head at view %d whose certificate lists the signers %v; last proposers %v", view, c16FirstMsg(o[0], o[1], o[2], first), hv, signers, sc.chain.chainFrom(k)), in)
-				} else if !wf {
+				} else if !wf && !accepted {
 					v.Count("carousel_malformed_certificate")
 					v.Oracle(true, "", "", nil)
 				} else {
@@ -876,6 +900,14 @@ func c16Carousel(v *verifOut) {
 					if len(last) > f {
 						last = last[:f]
 					}
+					// signers that may lead; with none left the (repaired) carousel answers round-robin
+					eligible := 0
+					for _, id := range signers {
+						if !slices.Contains(last, id) {
+							eligible++
+						}
+					}
+					picks := active && eligible > 0
 					switch {
 					case o[0].panicked || o[1].panicked || o[2].panicked:
 						v.Oracle(false, "carousel:panic", fmt.Sprintf("carousel GetLeader(%d) panicked: %s %s %s", view, o[0].msg, o[1].msg, o[2].msg), in)
@@ -885,11 +917,11 @@ func c16Carousel(v *verifOut) {
 						v.Oracle(false, "carousel:depends-on-signer-order", fmt.Sprintf("carousel GetLeader(%d): replica %d says %d, replica %d (same certificate signers in another order) says %d", view, sc.reps[1].id, o[1].id, sc.reps[2].id, o[2].id), in)
 					case !first.same(o[0]):
 						v.Oracle(false, "carousel:depends-on-earlier-queries", fmt.Sprintf("carousel GetLeader(%d) under the same committed head: the long-lived object says %s, an object asked for the first time says %s", view, o[0], first), in)
-					case (sc.contig || active) && !slices.Contains(sc.members, o[0].id):
-						v.Oracle(false, "carousel:unknown-replica", fmt.Sprintf("carousel GetLeader(%d) returned %d, configured ids %v", view, o[0].id, sc.members), in)
-					case active && !slices.Contains(signers, o[0].id):
+					case (sc.contig || picks) && !slices.Contains(sc.members, o[0].id):
+						v.Oracle(false, "carousel:unknown-replica", fmt.Sprintf("carousel GetLeader(%d) returned %d, configured ids %v; committed head at view %d, its certificate lists the signers %v", view, o[0].id, sc.members, hv, signers), in)
+					case picks && !slices.Contains(signers, o[0].id):
 						v.Oracle(false, "carousel:not-a-signer", fmt.Sprintf("active carousel chose %d, not a signer of the committed head's certificate %v", o[0].id, signers), in)
-					case active && slices.Contains(last, o[0].id):
+					case picks && slices.Contains(last, o[0].id):
 						v.Oracle(false, "carousel:recent-proposer", fmt.Sprintf("active carousel chose %d, a proposer of the last f=%d committed blocks %v", o[0].id, f, last), in)
 					default:
 						v.Oracle(true, "", "", nil)
@@ -942,6 +974,13 @@ func c16Carousel(v *verifOut) {
 	for rd := 0; rd < v.Pick(2, 12); rd++ {
 		for _, n := range []int{2, 4, 7, 10, 16} {
 			run(c16NewScenarioIDs(rng, c16BigMembers(rng, n), n, 1+rng.Intn(3), 3+rng.Intn(6), uint64(rng.Intn(5)), rd%2, "large-ids"))
+		}
+	}
+	// forged genesis certificates: the first block (view 1) certifies genesis with view 0 and a made-up signature
+	// listing non-members, id 0, repeated or huge ids (stub, wire ECDSA multi-signature, BLS bitfield)
+	for rd := 0; rd < v.Pick(3, 12); rd++ {
+		for _, n := range []int{4, 7, 10} {
+			run(c16NewScenario(rng, n, 1+(rd+n)%3, 2+rng.Intn(4), 0, 3, "forged-genesis-certificate"))
 		}
 	}
 	// crafted certificates: signature without participants (as received over the wire), signer sets that
@@ -1155,7 +1194,7 @@ func c16Reputation(v *verifOut) {
 			}
 			if o[0].panicked || o[1].panicked || o[2].panicked || oD.panicked {
 				v.Oracle(false, "reputation:panic", fmt.Sprintf("reputation GetLeader(%d) panicked (%s) under a committed head at view %d whose certificate lists the signers %v", view, c16FirstMsg(o[0], o[1], o[2], oD), hv, signers), in)
-			} else if !wf {
+			} else if !wf && !(k == 0 && signers != nil && sc.reps[0].auth.VerifyQuorumCert(sc.head(0, k).QuorumCert()) == nil) {
 				v.Count("reputation_malformed_certificate")
 				v.Oracle(true, "", "", nil)
 			} else {
@@ -1233,6 +1272,11 @@ func c16Reputation(v *verifOut) {
 	for rd := 0; rd < v.Pick(1, 6); rd++ {
 		for _, n := range []int{1, 4, 7} {
 			run(c16NewScenario(rng, n, 1+(rd+n)%3, 2+rng.Intn(5), 0, 2, "crafted-certificates"), 8)
+		}
+	}
+	for rd := 0; rd < v.Pick(1, 6); rd++ {
+		for _, n := range []int{4, 7} {
+			run(c16NewScenario(rng, n, 1+(rd+n)%3, 2+rng.Intn(4), 0, 3, "forged-genesis-certificate"), 8)
 		}
 	}
 }
